@@ -41,6 +41,8 @@ class ExecBase:
         self.npaths = 0
         self.cur_cls = None        # class of the function body being executed (for super())
         self.spec_inst_depth = 0
+        self.max_inst_depth = 4
+        self.lean_specs = False
         self.let_env = {}
         self.discovered_init = set()
 
@@ -323,6 +325,18 @@ class ExecBase:
         t = z3.Select(arr, obj.t)
         v = self.w.wrap(kind, t)
         bk = self.w.base_kind(kind)
+        ikey = ("fld", t.get_id())
+        if ikey in st.inst:
+            if isinstance(bk, tuple) and bk[0] in ("seq", "set"):
+                v.alias = (obj, fname)
+            return v
+        st.inst.add(ikey)
+        if self.spec_mode and self.lean_specs:
+            # inside specifications the typing facts of heap reads are not re-assumed (they are facts of the code paths)
+            if isinstance(bk, tuple) and bk[0] in ("seq", "set"):
+                v.alias = (obj, fname)
+                st.assume(SLen(t) >= 0)
+            return v
         if isinstance(bk, tuple) and bk[0] == "ref":
             nullable = isinstance(kind, tuple) and kind[0] == "opt"
             facts = []
